@@ -59,7 +59,9 @@ def worker(j):
             run("git checkout -- .", w + "/repo")
         lines = [l[:200] for l in out.splitlines() if l.startswith(("VIOLATION", prop))]
         caught = rc == 1 and any(l.startswith("VIOLATION property=%s " % prop) for l in lines)
-        broken = [l for l in lines if " broken=" in l and " broken=0 " not in l]
+        # "caught" only through obligations that no longer check, with no failing input at all: legitimate when the seed changes a
+        # constant the proofs depend on, suspicious when the Coq tree itself is broken - flagged for a look
+        broken = [l for l in lines if " broken=" in l and " broken=0 " not in l and " oracle_fail=0 " in l and " model_diff=0 " in l]
         res[d] = {"applies": True, "caught": caught, "wall_s": round(time.time() - t0, 1), "lines": lines,
                   "by_broken_build": bool(broken)}
         print(d, "caught" if caught else "MISSED", "(BROKEN BUILD) " if broken else "", lines[-1] if lines else out[-200:], flush=True)
